@@ -316,7 +316,10 @@ impl ToInternedString for LiteralKind {
     fn to_interned_string(&self, interner: &Interner) -> String {
         match *self {
             Self::String(st) => {
-                format!("\"{}\"", interner.resolve_expect(st))
+                format!(
+                    "\"{}\"",
+                    crate::escape_string_units(interner.resolve_expect(st).utf16(), '"')
+                )
             }
             Self::Num(num) => num.to_string(),
             Self::Int(num) => num.to_string(),
